@@ -436,7 +436,8 @@ Section Interp.
 
   Definition nth_bit (mask : N) (idx : N) : ires (option N) :=
     match bits_iter_list mask with
-    | Some l => IOk (nth_error l (N.to_nat idx))
+    (* [BitsIter::nth(idx)]: a word has at most 64 set bits; the test keeps the unary index small *)
+    | Some l => IOk (if N.ltb idx 64 then nth_error l (N.to_nat idx) else None)
     | None => IPanic 2
     end.
 
